@@ -36,16 +36,24 @@ impl<S: Storage> TableScanExecutor<S> {
             col_idx.push(StorageColumnRef::RowHandler);
         }
 
-        // The planner assumes that a scan of the on-disk engine which includes the primary key
-        // returns rows in key order: ask the storage for a sorted (merged) scan in that case.
+        // The planner assumes that a scan of the on-disk engine returns the rows of a table with a
+        // primary key in key order: ask the storage for a sorted (merged) scan. The plan may have
+        // pruned the key column from the scan list *after* an ORDER BY on the key was removed as
+        // useless, so the key columns are scanned in any case and dropped from the output below.
+        let mut hidden = 0;
         let sorted = self.storage.as_disk().is_some() && {
             let catalog = self.storage.get_catalog();
             let pks = catalog
                 .get_table(&self.table_id)
                 .map(|t| t.primary_keys())
                 .unwrap_or_default();
+            for id in &pks {
+                if !self.columns.iter().any(|c| c.column_id == *id) {
+                    col_idx.push(StorageColumnRef::Idx(*id));
+                    hidden += 1;
+                }
+            }
             !pks.is_empty()
-                && (pks.iter()).all(|id| self.columns.iter().any(|c| c.column_id == *id))
         };
 
         let txn = table.read().await?;
@@ -62,6 +70,8 @@ impl<S: Storage> TableScanExecutor<S> {
         while let Some(mut x) = it.next_batch(None).await? {
             if self.columns.is_empty() {
                 x = DataChunk::no_column(x.cardinality());
+            } else if hidden > 0 {
+                x = x.arrays()[..self.columns.len()].iter().cloned().collect();
             }
             yield x;
         }
